@@ -640,6 +640,39 @@ func runErrflow(c *Ctx) {
 					} else {
 						why = "error Result not guarded by err != nil"
 					}
+				case cal != nil && p.PrivateHelper(cal) && returnsResult(cal):
+					// a private step that does nothing but wrap its error parameter into an error Result
+					// (`func (f *Func) callError(err error) Result { return resultError(err) }`)
+					var errArg ssa.Value
+					var errPrm *ssa.Parameter
+					nErr := 0
+					for i, a := range cl.Common().Args {
+						if isErrorType(a.Type()) && i < len(cal.Params) {
+							errArg, errPrm = a, cal.Params[i]
+							nErr++
+						}
+					}
+					wraps := nErr == 1 && len(cal.Blocks) == 1
+					if wraps {
+						for _, hr := range core.Returns(cal) {
+							ic, isC := hr.Results[0].(*ssa.Call)
+							if !isC || len(ic.Common().Args) != 1 || ic.Common().Args[0] != ssa.Value(errPrm) {
+								wraps = false
+								continue
+							}
+							ih := ic.Common().StaticCallee()
+							if ih == nil || !p.InTarget(ih) || !returnsResult(ih) || ih.Signature.Params().Len() != 1 {
+								wraps = false
+							}
+						}
+					}
+					if wraps {
+						if nilCheckLit(lits, errArg, false) {
+							okk, why = true, "error Result (through a wrapping step) on a non-nil error branch"
+						} else {
+							why = "error Result not guarded by err != nil"
+						}
+					}
 				}
 			}
 			// an inlined error literal Result{buildErr: err}
